@@ -166,7 +166,7 @@ ElemElement::startElement(StylesheetExecutionContext&       executionContext) co
 
         const XalanDOMString::size_type     indexOfNSSep = indexOf(elemName, XalanUnicode::charColon);
 
-        const bool  havePrefix = indexOfNSSep == len ? false : true;
+        bool    havePrefix = indexOfNSSep == len ? false : true;
 
         const GetCachedString   prefixGuard(executionContext);
 
@@ -189,6 +189,8 @@ ElemElement::startElement(StylesheetExecutionContext&       executionContext) co
                 if (m_namespaceAVT != 0)
                 {
                     elemName.erase(0, indexOfNSSep + 1);
+
+                    havePrefix = false;
                 }
                 else
                 {
@@ -204,7 +206,19 @@ ElemElement::startElement(StylesheetExecutionContext&       executionContext) co
                 namespaceLen == 0 &&
                 equals(prefix, DOMServices::s_XMLNamespace) == false)
             {
-                elemNameSpace = *theNamespace;
+                if (m_namespaceAVT != 0)
+                {
+                    // The namespace attribute is present and empty, so the
+                    // element has a null namespace URI, and cannot have a
+                    // prefix.
+                    elemName.erase(0, indexOfNSSep + 1);
+
+                    havePrefix = false;
+                }
+                else
+                {
+                    elemNameSpace = *theNamespace;
+                }
             }
         }
 
@@ -359,7 +373,7 @@ ElemElement::execute(StylesheetExecutionContext&        executionContext) const
 
         const XalanDOMString::size_type     indexOfNSSep = indexOf(elemName, XalanUnicode::charColon);
 
-        const bool  havePrefix = indexOfNSSep == len ? false : true;
+        bool    havePrefix = indexOfNSSep == len ? false : true;
 
         const GetCachedString   prefixGuard(executionContext);
 
